@@ -177,10 +177,15 @@ func (ce *callEngine) drop(raw uint64) {
 }
 
 func (ce *callEngine) pushFrame(frame *callFrame) {
+	ce.checkCallStackCeiling()
+	ce.frames = append(ce.frames, frame)
+}
+
+// checkCallStackCeiling panics with wasmruntime.ErrRuntimeStackOverflow if no more frame can be pushed.
+func (ce *callEngine) checkCallStackCeiling() {
 	if callStackCeiling <= len(ce.frames) {
 		panic(wasmruntime.ErrRuntimeStackOverflow)
 	}
-	ce.frames = append(ce.frames, frame)
 }
 
 func (ce *callEngine) popFrame() (frame *callFrame) {
@@ -630,18 +635,18 @@ func (ce *callEngine) recoverOnCall(ctx context.Context, m *wasm.ModuleInstance,
 	frameCount := len(ce.frames)
 	functionListeners := make([]functionListenerInvocation, 0, 16)
 
-	if frameCount > wasmdebug.MaxFrames {
-		frameCount = wasmdebug.MaxFrames
-	}
+	// All the frames are unwound and their listeners notified; only the stack trace is limited to wasmdebug.MaxFrames.
 	for i := 0; i < frameCount; i++ {
 		frame := ce.popFrame()
 		f := frame.f
-		def := f.definition()
-		var sources []string
-		if parent := frame.f.parent; parent.body != nil && len(parent.offsetsInWasmBinary) > 0 {
-			sources = parent.source.DWARFLines.Line(parent.offsetsInWasmBinary[frame.pc])
+		if i < wasmdebug.MaxFrames {
+			def := f.definition()
+			var sources []string
+			if parent := frame.f.parent; parent.body != nil && len(parent.offsetsInWasmBinary) > 0 {
+				sources = parent.source.DWARFLines.Line(parent.offsetsInWasmBinary[frame.pc])
+			}
+			builder.AddFrame(def.DebugName(), def.ParamTypes(), def.ResultTypes(), sources)
 		}
-		builder.AddFrame(def.DebugName(), def.ParamTypes(), def.ResultTypes(), sources)
 		if f.parent.listener != nil {
 			functionListeners = append(functionListeners, functionListenerInvocation{
 				FunctionListener: f.parent.listener,
@@ -674,6 +679,7 @@ func (ce *callEngine) callGoFunc(ctx context.Context, m *wasm.ModuleInstance, f 
 	typ := f.funcType
 	lsn := f.parent.listener
 	if lsn != nil {
+		ce.checkCallStackCeiling() // before Before: a call that cannot get a frame must not be announced.
 		params := stack[:typ.ParamNumInUint64]
 		ce.stackIterator.reset(ce.stack, ce.frames, f)
 		lsn.Before(ctx, m, f.definition(), params, &ce.stackIterator)
@@ -4594,6 +4600,7 @@ func i32Abs(v uint32) uint32 {
 func (ce *callEngine) callNativeFuncWithListener(ctx context.Context, m *wasm.ModuleInstance, f *function, fnl experimental.FunctionListener) context.Context {
 	def, typ := f.definition(), f.funcType
 
+	ce.checkCallStackCeiling() // before Before: a call that cannot get a frame must not be announced.
 	ce.stackIterator.reset(ce.stack, ce.frames, f)
 	fnl.Before(ctx, m, def, ce.peekValues(typ.ParamNumInUint64), &ce.stackIterator)
 	ce.stackIterator.clear()
